@@ -148,6 +148,18 @@ static std::string opChi2(const Toks& t) {
     // first element of a weighted sample without replacement of size 1
     std::vector<size_t> v(k); std::iota(v.begin(), v.end(), 0);
     for (size_t i = 0; i < N; ++i) { std::vector<size_t> out(1); RandomTools::getSample(v, w, out, false); hit(out[0]); }
+  } else if (kind == "samplewr") {
+    // every element of weighted samples WITH replacement that are longer than the source (size k + 3)
+    std::vector<size_t> v(k); std::iota(v.begin(), v.end(), 0);
+    for (size_t i = 0; i < N; i += k + 3) { std::vector<size_t> out(k + 3); RandomTools::getSample(v, w, out, true); for (size_t x : out) hit(x); }
+  } else if (kind == "samplewe") {
+    // ... and of samples exactly as long as the source
+    std::vector<size_t> v(k); std::iota(v.begin(), v.end(), 0);
+    for (size_t i = 0; i < N; i += k) { std::vector<size_t> out(k); RandomTools::getSample(v, w, out, true); for (size_t x : out) hit(x); }
+  } else if (kind == "pickw") {
+    // the non-const weighted overload with replacement
+    std::vector<size_t> v(k); std::iota(v.begin(), v.end(), 0); std::vector<double> w2(w);
+    for (size_t i = 0; i < N; ++i) hit(RandomTools::pickOne(v, w2, true));
   } else if (kind == "shuffle") {
     // position taken by element 0 in a full sample without replacement (uniform over k positions)
     std::vector<size_t> v(k); std::iota(v.begin(), v.end(), 0);
